@@ -14,12 +14,23 @@
     `Refuse(Refused(v, ..))`, else `Accept(v, our data)`; nothing in common →
     `Refuse(VersionMismatch(our keys))` (hash-map order).
 
+  Numbers: version numbers (`VersionNumber = u64`) and network magics (`NetworkMagic = u64`) are
+  natural numbers over the **full 64-bit range** (`U64`); both functions compare them with `==` /
+  `!=` on the `u64` values — no narrowing cast, no masking. The model therefore compares `Nat`s by
+  equality, and Props/C25 shows at concrete 64-bit witnesses that magics (and version numbers) that agree
+  in their low 8/16/32 bits but differ above are *not* treated as equal (`*_high_bits_*`).
+
   A `HashMap<u64, D>` is an association list whose order is whatever the hash map yields; the
   theorems assume unique keys and prove the result does not depend on the order.
 -/
 namespace PallasVerif.Negotiate
 
 abbrev Table (D : Type) := List (Nat × D)
+
+/-- the range of `VersionNumber` and `NetworkMagic` (`u64`) -/
+def U64 (n : Nat) : Prop := n < 2 ^ 64
+
+instance (n : Nat) : Decidable (U64 n) := by unfold U64; infer_instance
 
 inductive Outcome (D : Type) where
   | accept (v : Nat) (d : D)
